@@ -627,6 +627,7 @@ TEXTS = [b"hello", b"hi there", b"how are you?", b"caf\xc3\xa9 au lait", b"\xc3\
          b"PING", b"#chan", b"\x1b[31mred", b"P\xc4\xb0NG"]
 BAN_MASKS = [b"*!*@*", b"alice!*@*", b"*!*@10.0.0.*", b"foo*", b"*[1]*", b"a.b*", b"(", b"x", b"*!a@*", b"bob*!*@*",
              b"*!*@2001:db8::*", b"*", b"**", b"\\"]
+MAX_USER_LEN = 32
 CLIENT_COMMANDS = ["NICK", "USER", "PASS", "QUIT", "SERVER", "JOIN", "PART", "KICK", "MODE", "TOPIC", "INVITE", "PRIVMSG",
                    "NOTICE", "WHO", "WHOIS", "NAMES", "LIST", "ISON", "USERHOST", "AWAY", "PING", "MOTD", "OPER", "KILL",
                    "GLINE", "KNOCK", "NICKSERV", "CHANSERV", "OPERSERV", "MEMOSERV", "HOSTSERV", "BOTSERV", "NS", "CS",
@@ -2428,7 +2429,7 @@ def mon_c12(tr):
             # what the line itself changes before any reply is rendered (cmdUser / cmdNick of a session that is not
             # yet registered: no NICK event is announced for it)
             if cmd == b"USER" and len(ps) >= 3:
-                a["user"] = ps[0]
+                a["user"] = ps[0][:MAX_USER_LEN]   # cmd_user.go keeps at most maxUserLen bytes (fix 53999a9)
                 pre_applied = True
             elif cmd == b"NICK" and ps and ps[0] and not any(m.command in (b"431", b"432", b"433") for m in st.msgs) \
                     and not any(m.command == b"NICK" and m.prefix is not None for m in st.msgs):
